@@ -14,7 +14,8 @@ import random
 from vf import si
 
 LABELS = ["A", "B", "C", "E", "F", "G2", "h_1", "Xy", "π", "N*"]
-ENVS = ["cyt", "mem", "nuc", "ext"]
+# some labels contain one another on purpose (a look-up by substring instead of by key would confuse them)
+ENVS = ["cyt", "mem", "nuc", "ext", "cytosol", "membrane", "ex", "nuc2"]
 
 
 def rng_for(seed, *salt):
@@ -300,6 +301,42 @@ class Rendering:
         self.same = same           # if given: every level uses this system
         self.molecule_state = molecule_state   # system level counts in molecules, state given as bare numbers
         self.log = {}
+        self.handed_in = []        # mutable containers / quantity objects handed to constructors (see scribble())
+
+    def keep(self, obj):
+        """remember a mutable input so that it can be scribbled over after construction"""
+        self.handed_in.append(obj)
+        return obj
+
+    def scribble(self):
+        """Overwrite every mutable input that was handed to a constructor.  The library documents value semantics for
+        its inputs (it copies them); an object that kept a reference instead now holds garbage and every oracle built
+        on the description notices.  (Species.chstt dictionaries are kept by reference by design and are not touched.)"""
+        import numpy as _np
+        n = 0
+        for o in self.handed_in:
+            try:
+                if isinstance(o, dict):
+                    for k in list(o):
+                        o[k] = "periodical" if o[k] == "reflecting" else ("reflecting" if o[k] == "periodical" else -4321.5)
+                    n += 1
+                elif isinstance(o, list):
+                    for i in range(len(o)):
+                        o[i] = 7 if isinstance(o[i], int) else -4321.5
+                    n += 1
+                elif isinstance(o, _np.ndarray):
+                    o[...] = 7 if o.dtype.kind in "iu" else -4321.5
+                    n += 1
+                elif hasattr(o, "value") and hasattr(o, "units"):
+                    if hasattr(o.value, "__len__"):
+                        o.value[...] = -4321.5
+                    else:
+                        o.value = -4321.5
+                    n += 1
+            except Exception:
+                pass
+        self.handed_in = []
+        return n
 
     def level(self, name, parent):
         """unit system for a nesting level: inherit from parent or its own"""
@@ -325,11 +362,11 @@ class Rendering:
         if form == "str":
             return "%r %s" % (num, ustr)
         from strengths.units import UnitValue
-        return UnitValue(num, ustr)
+        return self.keep(UnitValue(num, ustr))
 
     def per_env(self, v, dim3, enclosing):
         if isinstance(v, dict):
-            return {k: self.q(x, dim3, enclosing) for k, x in v.items()}
+            return self.keep({k: self.q(x, dim3, enclosing) for k, x in v.items()})
         return self.q(v, dim3, enclosing)
 
 
@@ -362,10 +399,10 @@ def render_network(desc, rd, parent_sys):
         if rd.r.random() < 0.5:
             sto = eq_string(x["sub"], x["prod"], rd.r)
         else:
-            sto = [dict(x["sub"]), dict(x["prod"])]
+            sto = rd.keep([rd.keep(dict(x["sub"])), rd.keep(dict(x["prod"]))])
         reactions.append(Reaction(sto, kf=rd.per_env(x["kf"], K_DIM(no), rsys), kr=rd.per_env(x["kr"], K_DIM(mo), rsys),
                                   label=x.get("label"), units_system=UnitsSystem(**si.sys_dict(rsys))))
-    return RDNetwork(species=species, reactions=reactions, environments=list(desc["envs"]),
+    return RDNetwork(species=rd.keep(list(species)), reactions=rd.keep(list(reactions)), environments=rd.keep(list(desc["envs"])),
                      units_system=UnitsSystem(**si.sys_dict(nsys)))
 
 
@@ -388,8 +425,8 @@ def render_space(desc, rd, parent_sys):
     sp = desc["space"]
     ssys = rd.level("space", parent_sys)
     if sp["type"] == "grid":
-        return RDGridSpace(w=sp["w"], h=sp["h"], d=sp["d"], cell_env=list(sp["cell_env"]),
-                           cell_vol=rd.q(sp["cell_vol"], VOL_DIM, ssys), boundary_conditions=bc_dict_form(sp["bc"], rd.r),
+        return RDGridSpace(w=sp["w"], h=sp["h"], d=sp["d"], cell_env=rd.keep(list(sp["cell_env"])),
+                           cell_vol=rd.q(sp["cell_vol"], VOL_DIM, ssys), boundary_conditions=rd.keep(bc_dict_form(sp["bc"], rd.r)),
                            units_system=UnitsSystem(**si.sys_dict(ssys)))
     nodes, edges = [], []
     for n, nd in enumerate(sp["nodes"]):
@@ -401,7 +438,7 @@ def render_space(desc, rd, parent_sys):
         edges.append(RDGraphSpaceEdge(i=e["i"], j=e["j"], surface=rd.q(e["sfc"], SFC_DIM, esys),
                                       distance=rd.q(e["dst"], LEN_DIM, esys),
                                       units_system=UnitsSystem(**si.sys_dict(esys))))
-    return RDGraphSpace(nodes=nodes, edges=edges, units_system=UnitsSystem(**si.sys_dict(ssys)))
+    return RDGraphSpace(nodes=rd.keep(list(nodes)), edges=rd.keep(list(edges)), units_system=UnitsSystem(**si.sys_dict(ssys)))
 
 
 def render_system(desc, rd):
@@ -414,13 +451,16 @@ def render_system(desc, rd):
     if desc["state"] is not None:
         form = "bare" if rd.molecule_state else rd.r.choice(["bare", "ua"])
         if form == "bare":
-            kw["state"] = [q_bare(x, sysu, Q_DIM) for x in desc["state"]]
+            kw["state"] = rd.keep([q_bare(x, sysu, Q_DIM) for x in desc["state"]])
         else:
             own = rd.sys_draw(rd.r) if rd.same is None else rd.same
-            kw["state"] = UnitArray([q_bare(x, own, Q_DIM) for x in desc["state"]], own[2])
+            kw["state"] = rd.keep(UnitArray([q_bare(x, own, Q_DIM) for x in desc["state"]], own[2]))
     if desc["chemostats"] is not None:
-        kw["chemostats"] = list(desc["chemostats"])
-    return RDSystem(network=net, space=space, units_system=UnitsSystem(**si.sys_dict(sysu)), **kw)
+        import numpy as _np
+        kw["chemostats"] = rd.keep(list(desc["chemostats"]) if rd.r.random() < 0.5 else _np.array(desc["chemostats"], dtype=int))
+    system = RDSystem(network=net, space=space, units_system=UnitsSystem(**si.sys_dict(sysu)), **kw)
+    rd.scribble()
+    return system
 
 
 def simple_rendering(seed_or_rng, same=None):
